@@ -439,8 +439,8 @@ def _replay():
 
 # ------------------------------------------------------------------ Python layer: Trajectory.superpose around the compiled routine (E2 symnum)
 
-_SEL_AI = {"all": None, "same": [0, 2, 3], "different": [0, 2, 3], "explicit_all": "arange", "permutation": [3, 1, 0, 2], "self": None, "self_sel": [0, 2, 3], "traces": None}
-_SEL_RI = {"all": None, "same": None, "different": [3, 1, 0], "explicit_all": None, "permutation": None, "self": None, "self_sel": None, "traces": None}
+_SEL_AI = {"all": None, "same": [0, 2, 3], "different": [0, 2, 3], "explicit_all": "arange", "permutation": [3, 1, 0, 2], "self": None, "self_sel": [0, 2, 3], "traces": None, "different_unsorted": [3, 0, 2]}
+_SEL_RI = {"all": None, "same": None, "different": [3, 1, 0], "explicit_all": None, "permutation": None, "self": None, "self_sel": None, "traces": None, "different_unsorted": [1, 3, 0]}
 
 
 def superpose_wrapper(sel: str = "same"):
